@@ -400,6 +400,9 @@ func (s *sess) byContent(e *Event, r io.Reader, idx int) error {
 	switch {
 	case early:
 		return &smtp.SMTPError{Code: 554, EnhancedCode: smtp.EnhancedCode{5, 6, 1}, Message: "early failure " + line}
+	case strings.HasPrefix(line, "rejectne"):
+		// no enhanced code: the server must derive 5.0.0
+		return &smtp.SMTPError{Code: 554, Message: "rejected message " + line}
 	case strings.HasPrefix(line, "reject"):
 		return &smtp.SMTPError{Code: 554, EnhancedCode: smtp.EnhancedCode{5, 6, 0}, Message: "rejected message " + line}
 	case strings.HasPrefix(line, "panic"):
